@@ -1595,7 +1595,7 @@ package stun
 //@ func (*Client).Close->ClientAgent.Close(a)
 //@   assigns everything, ghost(agent_closes), ghost(now_last), ghost(wr_n), gmapa(wr_data), gmap(wr_len), gmap(wr_errt), gmap(wr_errv), ghost(ag_n), gmap(ag_op), gmapa(ag_id), gmap(ag_dl), gmap(ag_errt), gmap(ag_errv), ghost(ev_n), gmapa(ev_tid), gmap(ev_errt), gmap(ev_errv), gmap(ev_msg), gmap(ev_h)
 //@   allocates
-//@   ensures c.c == old(c.c) && c.closeConn == old(c.closeConn) && c.close == old(c.close) && c.closed == old(c.closed) && c.collector == old(c.collector)
+//@   ensures c.c == old(c.c) && c.closeConn == old(c.closeConn) && c.close == old(c.close) && c.closed == old(c.closed) && c.collector == old(c.collector) && region(c.t) == old(region(c.t))
 //@   ensures gmap(chclosed)[c.close] == old(gmap(chclosed)[c.close]) && gmap(held)[region(c)] == old(gmap(held)[region(c)])
 //@   ensures ghost(coll_closes) == old(ghost(coll_closes)) && ghost(conn_closes) == old(ghost(conn_closes)) && ghost(wg_waits) == old(ghost(wg_waits))
 //@   ensures ghost(agent_closes) == old(ghost(agent_closes)) + 1
@@ -1622,6 +1622,9 @@ package stun
 //@   ensures c != nil && result != ErrClientNotInitialized && !old(c.closed) && ghost(agent_closes) != old(ghost(agent_closes)) ==> Closes(1, 1, ite(old(c.closeConn), 1, 0), 1) && gmap(chclosed)[c.close] == 1
 //@   ensures c != nil && result == nil ==> Closes(1, 1, ite(old(c.closeConn), 1, 0), 1) && gmap(chclosed)[c.close] == 1 && c.closed
 //@   ensures result != nil && result != ErrClientNotInitialized && result != ErrClientClosed && ghost(agent_closes) != old(ghost(agent_closes)) ==> errtag(result) == typeid("CloseErr")
+// the transaction table itself stays in place (the agent's close events must still find their transactions)
+//@   props C15 C10
+//@   ensures c != nil ==> region(c.t) == old(region(c.t))
 
 //@ func (*Client).Indicate(c, m)
 //@   safety C10 C15
